@@ -16,6 +16,7 @@ import (
 
 	"github.com/opencontainers/go-digest"
 	ocispec "github.com/opencontainers/image-spec/specs-go/v1"
+	"oras.land/oras-go/v2/errdef"
 	"oras.land/oras-go/v2/registry/remote"
 	"pgregory.net/rapid"
 
@@ -33,6 +34,12 @@ type RefSpec struct {
 	Kind    string            `json:"kind"` // image, image-config-at, artifact, index
 	AT      string            `json:"at,omitempty"`
 	Ann     map[string]string `json:"ann,omitempty"`
+	// SubjAlt: the manifest describes its subject with another media type (same
+	// digest and size): still the same subject, the same referrers tag
+	SubjAlt bool `json:"subjAlt,omitempty"`
+	// Big: the manifest is larger than the Repository's MaxMetadataBytes (when the
+	// case sets one): its push must be refused and leave nothing behind
+	Big bool `json:"big,omitempty"`
 }
 
 // PhaseOp is one operation of a concurrent phase.
@@ -60,6 +67,7 @@ type Case struct {
 	Gate          int         `json:"gate"`
 	GateSeed      int         `json:"gateSeed,omitempty"`
 	Fault         *Fault      `json:"fault,omitempty"`
+	MaxMeta       int         `json:"maxMetadataBytes,omitempty"`
 }
 
 var ats = []string{"application/vnd.verif.sig", "application/vnd.verif.sbom"}
@@ -82,12 +90,29 @@ func genCase(t *rapid.T) Case {
 		if rapid.Bool().Draw(t, "ann") {
 			r.Ann = map[string]string{"k": fmt.Sprint(i)}
 		}
+		r.SubjAlt = rapid.IntRange(0, 3).Draw(t, "subjAlt") == 0
 		c.Refs = append(c.Refs, r)
+	}
+	if rapid.IntRange(0, 3).Draw(t, "maxMeta") == 0 {
+		c.MaxMeta = 16384
+		for i := range c.Refs {
+			c.Refs[i].Big = rapid.IntRange(0, 3).Draw(t, "big") == 0
+		}
 	}
 	for i := range c.Refs {
 		if c.Pre[c.Refs[i].Subject] != 0 && rapid.IntRange(0, 2).Draw(t, "preLive") == 0 {
 			c.PreLive = append(c.PreLive, i)
 		}
+	}
+	if c.MaxMeta > 0 {
+		// an oversized manifest cannot have been pushed through such a Repository
+		var keep []int
+		for _, i := range c.PreLive {
+			if !c.Refs[i].Big {
+				keep = append(keep, i)
+			}
+		}
+		c.PreLive = keep
 	}
 	c.SkipGC = rapid.IntRange(0, 3).Draw(t, "skipGC") == 0
 	live := map[int]bool{}
@@ -102,7 +127,7 @@ func genCase(t *rapid.T) Case {
 		for j := 0; j < k; j++ {
 			ref := rapid.IntRange(0, n-1).Draw(t, "ref")
 			op := "push"
-			if live[ref] {
+			if live[ref] && !c.Refs[ref].Big {
 				op = "delete"
 			}
 			if touched[ref] {
@@ -216,7 +241,17 @@ func runInner(c Case) (res vt.Result, fail *vt.Fail) {
 	refs := make([]built, len(c.Refs))
 	refDigests := map[string]int{}
 	for i, r := range c.Refs {
-		refs[i] = buildRef(i, r, subjects[r.Subject].desc)
+		sd := subjects[r.Subject].desc
+		if r.SubjAlt {
+			sd.MediaType = gen.MTIndex
+		}
+		if r.Big {
+			if r.Ann == nil {
+				r.Ann = map[string]string{}
+			}
+			r.Ann["pad"] = strings.Repeat("p", 17000)
+		}
+		refs[i] = buildRef(i, r, sd)
 		refDigests[refs[i].desc.Digest.String()] = i
 	}
 	entry := func(i int) ocispec.Descriptor {
@@ -337,6 +372,9 @@ func runInner(c Case) (res vt.Result, fail *vt.Fail) {
 	}
 	repo.Client = &http.Client{Transport: reg}
 	repo.SkipReferrersGC = c.SkipGC
+	if c.MaxMeta > 0 {
+		repo.MaxMetadataBytes = int64(c.MaxMeta)
+	}
 
 	limbo := map[int]bool{}   // a Delete reported an index-delete error: the index no longer lists the manifest, the manifest itself was not deleted
 	touched := map[int]bool{} // subjects whose index this Repository has rewritten
@@ -373,6 +411,7 @@ func runInner(c Case) (res vt.Result, fail *vt.Fail) {
 		fo := faultOn
 		mu.Unlock()
 		realNil := map[int]bool{}
+		oversizeRefused := map[int]bool{}
 		for ref, es := range perRef {
 			anyNil := false
 			for _, e := range es {
@@ -394,6 +433,13 @@ func runInner(c Case) (res vt.Result, fail *vt.Fail) {
 				}
 				if kind[ref] == "delete" && len(es) > 1 && strings.Contains(e.Error(), "not found") {
 					continue // the loser of two concurrent deletes of the same manifest
+				}
+				if kind[ref] == "push" && c.Refs[ref].Big && c.MaxMeta > 0 {
+					if !errors.Is(e, errdef.ErrSizeExceedsLimit) {
+						return res, vt.Failf("C14/oversized-push-wrong-error", "phase %d: push of referrer %d (%d bytes, MaxMetadataBytes %d) failed with %v, expected size-exceeds-limit", pi, ref, len(refs[ref].bytes), c.MaxMeta, e)
+					}
+					oversizeRefused[ref] = true
+					continue
 				}
 				if !fh {
 					return res, vt.Failf("C14/operation-failed", "phase %d: %s of referrer %d failed without any injected fault: %v", pi, kind[ref], ref, e)
@@ -521,6 +567,12 @@ func runInner(c Case) (res vt.Result, fail *vt.Fail) {
 				k := entryKey(entry(i))
 				if live[i] && !gotSet[k] && !pushFailed[i] && !limbo[i] {
 					return res, vt.Failf("C14/silent-loss", "phase %d: referrer %d is live, its push returned nil, but it is not listed for subject %d (fault %+v)", pi, i, s, c.Fault)
+				}
+				if !live[i] && gotSet[k] && limbo[i] {
+					// the Delete reported an index-delete error: either the update took
+					// effect (the manifest may then go, it is no longer listed) or deleting
+					// the old index WAS the update and failed (then the manifest stays)
+					return res, vt.Failf("C14/index-delete-error-but-manifest-gone-and-listed", "phase %d: Delete of referrer %d reported a referrers-index-delete error; its manifest is gone from the registry, yet subject %d still lists it (a retry of the Delete ends with not-found)", pi, i, s)
 				}
 				if !live[i] && gotSet[k] && deleteFailed[i] && !limbo[i] && (c.Fault.On == "index-get" || c.Fault.On == "index-put") {
 					// a Delete that failed because the index could not be fetched or
